@@ -204,6 +204,15 @@ def check(ck):
     # ---- C19.4 constructor chain of the client classes; the Unix transport returns the connection it caches ----------------------
     from rules import common
     common.check_base_constructors(ck, "C19.4", classes=[k for k in common.BASE_INITS if k.startswith("jsonrpc.")])
+    # TransportError hands its four arguments to ProtocolError.__init__(url, errcode, errmsg, headers) in order
+    fte = prog.func("jsonrpc", "TransportError.__init__")
+    gte = cfg_of(fte)
+    bi = [(n, c) for n in gte.live_nodes() for c in node_calls(n) if dump(c.func) == "ProtocolError.__init__"]
+    okk = len(bi) == 1 and [prov.origin(gte, bi[0][0], a) for a in bi[0][1].args] == [("param", p_) for p_ in fte.params] and not bi[0][1].keywords \
+        and len(fte.params) == 5
+    ck.require(okk, "C19.4", "%s: ProtocolError.__init__(self, url, errcode, errmsg, msg)" % q.fn(fte), "all four arguments, in order",
+               "TransportError does not initialise its base with (url, errcode, errmsg, msg): raising it for a non-200 reply fails (TypeError) or "
+               "loses the URL / status", q.loc(fte, fte.node))
     fmc = prog.func("jsonrpc", "UnixTransport.make_connection")
     gmc = cfg_of(fmc)
     for (rn, val) in q.return_sources(fmc):
